@@ -4,7 +4,7 @@
 From Coq Require Import Extraction ExtrOcamlBasic.
 From Coq Require Import List NArith ZArith String.
 From Gen Require Import Tables.
-From Model Require Import Base Names Flt F32 Matches Detect Declared Cd Decode.
+From Model Require Import Base Names Flt F32 Matches Detect Declared Cd Decode Cli.
 
 Extraction Language OCaml.
 Separate Extraction
@@ -18,4 +18,5 @@ Separate Extraction
   Detect.from_bytes Detect.probe Detect.make_ctx
   Declared.any_specified_encoding
   Cd.coherence_ratio Cd.merge_coherence_ratios Cd.filter_alt Cd.most_common
-  Decode.helper Decode.utf8_decoder Decode.sb_decoder.
+  Decode.helper Decode.utf8_decoder Decode.sb_decoder
+  Cli.run.
